@@ -6,7 +6,7 @@
    consumes the real stream event by event. *)
 From Coq Require Import ZArith List String Bool.
 From TV Require Import Py.Prelude Model.Schema Model.ImplInput Model.ImplExec Model.Subscribe Model.ImplValidate Model.SubscribeValidated
-     Proofs.ValidateWalk Proofs.SingleRoot.
+     Proofs.ValidateWalk Proofs.SingleRoot Proofs.SingleRootSpreads.
 Import ListNotations.
 Open Scope string_scope.
 Open Scope list_scope.
@@ -95,6 +95,20 @@ Proof.
   exists r. auto.
 Qed.
 
+(* ... or through any chain of fragment spreads *)
+Theorem C14_two_reachable_root_fields_never_start_the_source V U cfg source has_source doc opname raw o :
+  In o (operations doc) -> o_kind o = OpSubscription -> two_reachable_keys (fragments doc) (o_sels o) ->
+  exists r, validate_and_subscribe V U cfg source has_source doc opname raw = SubRefused r /\ r_data r = PNone /\ r_errors r <> [].
+Proof.
+  intros Hin Hk Htwo.
+  assert (Hacc : accepted V doc = false).
+  { destruct (accepted V doc) eqn:E; [|reflexivity]. exfalso.
+    apply accepted_iff_clean, validate_clean_iff in E. destruct E as (_ & _ & _ & _ & Hq & _).
+    exact (single_root_rule_refuses_reachable doc o Hin Hk Htwo Hq). }
+  destruct (refused_subscription_never_starts V U cfg source has_source doc opname raw Hacc) as (r & H1 & H2 & H3 & _).
+  exists r. auto.
+Qed.
+
 (* an accepted document is executed by the subscription executor unchanged *)
 Theorem C14_accepted_document_is_executed V U cfg source has_source doc opname raw :
   accepted V doc = true ->
@@ -108,3 +122,4 @@ Print Assumptions C14_refused_request_single_response.
 Print Assumptions C14_refused_document_never_starts_the_source.
 Print Assumptions C14_two_root_fields_never_start_the_source.
 Print Assumptions C14_accepted_document_is_executed.
+Print Assumptions C14_two_reachable_root_fields_never_start_the_source.
